@@ -131,8 +131,12 @@ def repl_inputs_cases(draw, tier):
                            max_outputs=4))
     n = len(nl['inputs'])
     assign = [draw(st.sampled_from(['keep', 'keep', 'true', 'false'])) for _ in range(n)]
+    whole = draw(st.sampled_from([None, None, None, None, 'true', 'false']))
+    if whole:
+        # every input fixed to the same constant; the natural spelling is c.replace_inputs(c.inputs, [])
+        assign = [whole] * n
     return {'nl': nl, 'route': draw(gen.routes(nl)), 'assign': assign, 'shuffle': draw(st.booleans()),
-            'bad': draw(st.integers(0, 9)) == 0}
+            'bad': draw(st.integers(0, 9)) == 0, 'live': bool(whole) and draw(st.booleans())}
 
 
 def check_replace_inputs(case):
@@ -151,7 +155,12 @@ def check_replace_inputs(case):
         except core.cexc.GateNotInputError:
             return {'nt': False, 'cls': {'non_input_rejected'}}
         raise Violation('replace_inputs_non_input', 'replacing a non-input gate did not raise GateNotInputError')
-    ret = c.replace_inputs(to_t, to_f)
+    live = case.get('live') and (to_t == list(c.inputs) or to_f == list(c.inputs))
+    if live:
+        # the circuit's own inputs list as the argument
+        ret = c.replace_inputs(c.inputs, []) if to_t else c.replace_inputs([], c.inputs)
+    else:
+        ret = c.replace_inputs(to_t, to_f)
     if ret is not c:
         raise Violation('replace_inputs_return', 'does not return the circuit')
     remaining = [x for x, a in zip(ins, case['assign']) if a == 'keep']
@@ -182,6 +191,10 @@ def check_replace_inputs(case):
         cls.add('both')
     if any(x in nl['outputs'] for x in to_t + to_f):
         cls.add('fixed_input_is_output')
+    if live:
+        cls.add('live_inputs_list')
+    if not remaining:
+        cls.add('all_fixed')
     return {'nt': bool(to_t or to_f) and gen.nontrivial_basic(nl), 'cls': cls}
 
 
@@ -450,7 +463,7 @@ SPEC = {
     'id': 'C19',
     'rule': ('rename_gate: every kind of gate x fresh / existing / absent / same label on circuits with blocks - expected '
              'bookkeeping (operands, users, inputs, every output position, block lists) computed by a reference renaming of '
-             'the snapshot, tt unchanged, wellformed, dedicated errors. replace_inputs: disjoint subsets to True / False - '
+             'the snapshot, tt unchanged, wellformed, dedicated errors. replace_inputs: disjoint subsets to True / False (also all inputs, also given as the circuit\'s own live inputs list) - '
              'result == cofactor of the reference table over the remaining inputs in original order. remove_gate: every '
              'gate - succeeds iff no users, gone from gates/inputs/every output position. replace_subcircuit: cone grown '
              'from 1-2 gates down to a generated boundary (<=5), replacement synthesised independently (DNF or '
@@ -466,7 +479,7 @@ SPEC = {
              Sub('replace_subcircuit', subcircuit_cases, check_subcircuit, {'quick': 2000, 'thorough': 150000})],
     'required_classes': {'rename': ['has_users', 'is_output', 'repeated_output', 'is_input', 'in_block', 'mode:existing',
                                     'mode:absent', 'dup_operand_use'],
-                         'replace_inputs': ['both', 'non_input_rejected'],
+                         'replace_inputs': ['both', 'non_input_rejected', 'live_inputs_list', 'all_fixed'],
                          'remove_gate': ['removed', 'has_users', 'was_output', 'was_input'],
                          'replace_subcircuit': ['replaced', 'extra_outputs', 'cone_output_is_circuit_output',
                                                 'fault:unlisted_fanout', 'fault:missing_input', 'fault:label_collision',
